@@ -688,6 +688,14 @@ fn harvest(seed: u64, corpus: &mut Corpus, notes: &mut Vec<String>) {
             }
         }
     }
+    // proposals as the members cache them
+    for &i in members.iter().take(3) {
+        for (_, prop, _) in hist.w.members[i].group.as_ref().unwrap().verif_cached_proposals_in_bundle_order() {
+            if let Ok(b) = prop.mls_encode_to_vec() {
+                corpus.items.push(("Proposal", b));
+            }
+        }
+    }
     // a Welcome and detached commit secrets
     if let Some(&a) = members.first() {
         let o = hist.new_member();
@@ -955,6 +963,26 @@ pub fn run(o: &Opts) -> i32 {
                 }
             }
             _ => {}
+        }
+    }
+    // every proposal type value 0..10 and two custom ones with short random payloads (reserved / defined / custom types)
+    if codec_names.contains("Proposal") {
+        for t in (0u16..=10).chain([0xf000u16, 0xffff]) {
+            for _ in 0..6 {
+                let mut b = t.to_be_bytes().to_vec();
+                let l = rng.below(14) as usize;
+                if rng.chance(2, 3) {
+                    // a well-formed opaque payload (what a custom proposal carries)
+                    b.extend(prefixed(rng.bytes(l)));
+                } else {
+                    b.extend(rng.bytes(l));
+                }
+                let ans = guarded_probe("Proposal", &b, &mut st, "proposal-type-sweep");
+                if ans != "panic" {
+                    put_codec_row(&mut qa, "Proposal", &b, &ans);
+                    *codec_rows.entry("Proposal".to_string()).or_default() += 1;
+                }
+            }
         }
     }
     let rows = qa.finish();
